@@ -128,6 +128,11 @@ def run_case(case):
     if kind == 'dt_on':
         for i in range(n):
             k, r = impl.outcome(impl.dt_update, spec, i, {v: w[v][i] for v in data_vars})
+            if k == 'rtamt':
+                # a caller that catches the rejection and tries again must be rejected again, in the same clean way
+                k2, r2 = impl.outcome(impl.dt_update, spec, i, {v: w[v][i] for v in data_vars})
+                if k2 != 'rtamt':
+                    return ('exc' if k2 != 'ok' else 'ok'), 'after a first rejection the same call %s' % ('returned %r' % (r2,) if k2 == 'ok' else 'raised %s' % (r2,)), 'update %d (second attempt)' % (i + 1)
             if k != 'ok':
                 return k, r, 'update %d' % (i + 1)
         return 'ok', r, 'update'
@@ -142,6 +147,10 @@ def run_case(case):
         return k, r, 'evaluate'
     for i in range(n):
         k, r = impl.outcome(impl.ct_update, spec, {v: sig[v][i:i + 1] for v in data_vars})
+        if k == 'rtamt':
+            k2, r2 = impl.outcome(impl.ct_update, spec, {v: sig[v][i:i + 1] for v in data_vars})
+            if k2 != 'rtamt':
+                return ('exc' if k2 != 'ok' else 'ok'), 'after a first rejection the same call %s' % ('returned %r' % (r2,) if k2 == 'ok' else 'raised %s' % (r2,)), 'update %d (second attempt)' % (i + 1)
         if k != 'ok':
             return k, r, 'update %d' % (i + 1)
     return 'ok', r, 'update'
